@@ -152,6 +152,10 @@ class Ctx:
                 if k.get("status", "known") == "known" and k["key"] == key:
                     self.known_hits.append((k, what))
                     return
+        if isinstance(replay, dict):
+            replay.setdefault("rerun", f"VERIF_SEED={self.seed} ./check {self.prop} --tier {self.tier}")
+            if "lean" in replay and "lean_request" not in replay and getattr(self, "last_rejected", None) is not None:
+                replay["lean_request"] = self.last_rejected
         self.violations.append((what, replay))
 
     # ------------------------------------------------------------ equivalence by the Lean validator
@@ -172,6 +176,7 @@ class Ctx:
         if "error" in ans:
             raise RuntimeError(f"driver error: {ans['error']}")
         self.disagreements_checked += 1
+        self.last_rejected = req
         self.count("lean_rejects")
         diff = None
         try:
@@ -269,3 +274,31 @@ def load_known():
     for k in data.get("findings", []):
         out.setdefault(k["property"], []).append(k)
     return out
+
+
+def generic_replay(ctx, path):
+    """./check Cnn --replay file: shows the recorded violation and, when the file holds the request that the proved
+    checker rejected, asks the Lean driver and the numeric falsifier again (against the current build)."""
+    import export as X
+    import numeval as N
+    with open(path) as f:
+        d = json.load(f)
+    rep = d.get("replay", {})
+    print(f"property {d.get('property')}: {d.get('what')}")
+    for k, v in rep.items():
+        if k not in ("lean_request", "e1", "e2", "request"):
+            print(f"  {k}: {str(v)[:400]}")
+    req = rep.get("lean_request")
+    if not isinstance(req, dict):
+        print(f"  (no validator request recorded; re-run with: {rep.get('rerun')})")
+        return 1
+    ans = ctx.drv().ask(req)
+    print("  Lean checker now:", {k: v for k, v in ans.items() if k != "residual"})
+    if ans.get("ok"):
+        print("  -> accepted by the current build: the recorded violation does not reproduce")
+        return 0
+    if req.get("op") == "equiv":
+        diff = N.find_difference(X.expr_from_json(req["e1"]), X.expr_from_json(req["e2"]))
+        print("  numeric witness:", diff)
+    print(f"VIOLATION property={d.get('property')} replay={path}")
+    return 1
